@@ -162,7 +162,11 @@ theorem C02_append_send (c : Ctx) (hc : CalleeOK c.callee) (a : String) (vs : Li
       cases hsp : spreadArgs sp ws with
       | none => simp
       | some xs =>
-        cases hap : appendVals av xs <;> simp [hap, spreadVals, setAll, ha]
+        cases hap : appendVals av xs with
+        | none => simp [hap]
+        | some r =>
+          simp [hap, spreadVals, setAll, ha]
+          cases e1.set a r <;> rfl
     | panic v t => simp
     | ret vs2 e1 t => simp
     | timeout t => simp
